@@ -56,7 +56,10 @@ def conc_leg(c, wd, tier, seed, prop=PROP, n=None):
         s = seed * 1000 + k
         tp = os.path.join(wd, "conc-%d.ndjson" % s)
         try:
-            rc, so, _ = axv(["conc", "--seed", s, "--rounds", rounds, "--steps", 40 if tier == "quick" else 80, "--shared-read", "--out", tp, "--dir", os.path.join(wd, "conc-db")], timeout=900, check=False)
+            # the first run of a leg is a long one (250 calls per client): the tables and the catalog grow deep enough for latch
+            # hand-over between the levels of a tree to matter; the others are many short ones
+            long_run = k == 0
+            rc, so, _ = axv(["conc", "--seed", s, "--rounds", 2 if long_run else rounds, "--steps", 250 if long_run else (40 if tier == "quick" else 80), "--shared-read", "--out", tp, "--dir", os.path.join(wd, "conc-db")], timeout=900, check=False)
         except ToolError:
             rc, so = "timeout", ""
         if rc != 0:
